@@ -153,12 +153,12 @@ def run_tlc(module, cfg=None, files=None, workers=1, timeout=600, extra=None, he
     return r
 
 
-def run_apalache(module, init, inv, length, timeout=300, next_=None):
+def run_apalache(module, init, inv, length, timeout=300, next_=None, cinit=None):
     """Run `apalache-mc check` on spec/<module>.tla in a scratch directory; returns (ok, text)."""
     d = scratch("apa")
     shutil.copy(os.path.join(SPEC, module + ".tla"), d)
     cmd = ["apalache-mc", "check", "--init=" + init, "--inv=" + inv, "--length=%d" % length] + \
-          (["--next=" + next_] if next_ else []) + [module + ".tla"]
+          (["--next=" + next_] if next_ else []) + (["--cinit=" + cinit] if cinit else []) + [module + ".tla"]
     try:
         p = subprocess.run(cmd, cwd=d, stdout=subprocess.PIPE, stderr=subprocess.STDOUT, text=True, timeout=timeout)
     except (subprocess.TimeoutExpired, FileNotFoundError) as e:
